@@ -6,6 +6,7 @@ import (
 	"fmt"
 	"go/token"
 	"go/types"
+	"regexp"
 	"strings"
 
 	"golang.org/x/tools/go/ssa"
@@ -343,6 +344,36 @@ func (x *Exec) staticCall(fr *Frame, st *State, cc *ssa.CallCommon, callee *ssa.
 			return
 		}
 		x.note("assumed side-effect free (results arbitrary): %s", name)
+		// ... except through its arguments: what a pointer argument points to is unknown afterwards
+		for i := range args {
+			a := args[i]
+			if a.Dyn != nil {
+				// a pointer wrapped in an interface (json.Unmarshal(data, &v))
+				a = *a.Dyn
+			}
+			if a.Loc != nil && a.Loc.Kind == LCell {
+				c := a.Loc.Cell
+				nv := x.freshVal(st, "out_"+c.name, c.typ)
+				st.cells[c] = nv
+				continue
+			}
+			if a.Typ == nil || a.T.IsZero() {
+				continue
+			}
+			if pt, ok := a.Typ.Underlying().(*types.Pointer); ok && a.T.Sort == "Int" {
+				if _, isStruct := pt.Elem().Underlying().(*types.Struct); isStruct {
+					si := x.te.Struct(pt.Elem())
+					for fi := range si.Acc {
+						key, sort := x.fieldComp(si, fi)
+						if x.immutComp(key) {
+							continue
+						}
+						cur := x.heapGet(st, key, sort)
+						st.heap[key] = Store(cur, a.T, x.d.Fresh("out_fld", si.FSorts[fi]))
+					}
+				}
+			}
+		}
 		rs := x.freshResults(st, sig)
 		k(st, resultVal(rs, sig))
 		return
@@ -514,7 +545,11 @@ func (x *Exec) applyContract(fr *Frame, st *State, cc *ssa.CallCommon, callee *s
 		}
 	}
 	for _, c := range ctr.Ensures {
-		if strings.Contains(c.Src, "calls") {
+		if strings.Contains(c.Src, "calls") || execGhostRe.MatchString(c.Src) {
+			// the call log and the per-execution ghosts (items yielded or
+			// offered, the response written, ...) are the callee's own: a
+			// clause over them is proved inside the callee and tells a
+			// caller nothing
 			continue
 		}
 		// a clause over the callee's own locals is proved inside the callee
@@ -556,6 +591,8 @@ func (x *Exec) applyContract(fr *Frame, st *State, cc *ssa.CallCommon, callee *s
 	x.lockEffects(st, ctr, env)
 	k(st, resultVal(rs, sig))
 }
+
+var execGhostRe = regexp.MustCompile(`\b(offered|offeredAt|yielded|yieldedAt|yieldedErr|stopped|visited|copyErr|copied|status|header|bodyLen|bodyCopied|ncalls)\(`)
 
 // modifiesMatch: does the modifies item m ("pkg.Type", "pkg.Type.field",
 // "Type.field") cover heap component key k ("F_S_pkg_Type__field")?
@@ -887,6 +924,13 @@ func (x *Exec) closureAsLoop(fr *Frame, st *State, c *Closure, ev *CallEvent) {
 		}
 		return env
 	}
+	// ghost: the items the foreign iterator offers to this callback
+	itemSort := ""
+	if len(c.Fn.Params) >= 1 && c.Fn.Signature.Results().Len() == 1 {
+		itemSort = x.te.SortOf(c.Fn.Params[0].Type())
+		st.ghost["ocnt"] = IntLit(0)
+		st.ghost["oseq:"+itemSort] = x.d.Fresh("oseq0", ArraySort("Int", itemSort))
+	}
 	// entry: invariants hold before the foreign call
 	if len(invs) > 0 {
 		env := mkEnv(st)
@@ -896,6 +940,12 @@ func (x *Exec) closureAsLoop(fr *Frame, st *State, c *Closure, ev *CallEvent) {
 	}
 	// an arbitrary invocation
 	body := st.clone()
+	if itemSort != "" {
+		oc := x.d.Fresh("ocnt", "Int")
+		body.assume(Ge(oc, IntLit(0)))
+		body.ghost["ocnt"] = oc
+		body.ghost["oseq:"+itemSort] = x.d.Fresh("oseq", ArraySort("Int", itemSort))
+	}
 	x.havocCaptured(body, c)
 	if ev == nil || !ev.NoHavoc {
 		x.havocHeap(body, "closure invocation")
@@ -914,6 +964,21 @@ func (x *Exec) closureAsLoop(fr *Frame, st *State, c *Closure, ev *CallEvent) {
 	var params []Val
 	for _, p := range c.Fn.Params {
 		params = append(params, x.freshVal(body, "cb_"+p.Name(), p.Type()))
+	}
+	if itemSort != "" {
+		// this invocation offers params[0] (an item unless an error comes with it)
+		isItem := True
+		if len(params) >= 2 && params[len(params)-1].T.Sort == "Iface" {
+			isItem = Eq(params[len(params)-1].T, NilIface)
+		}
+		cnt, seq := x.offerGhost(body, itemSort)
+		it := x.termOf(body, &params[0])
+		nc := x.d.Fresh("ocnt", "Int")
+		ns := x.d.Fresh("oseq", seq.Sort)
+		body.assume(Eq(nc, Ite(isItem, Add(cnt, IntLit(1)), cnt)))
+		body.assume(Eq(ns, Ite(isItem, Store(seq, cnt, it), seq)))
+		body.ghost["ocnt"] = nc
+		body.ghost["oseq:"+itemSort] = ns
 	}
 	// assumed interface contract on the items of a Seq obtained from an
 	// interface method (seq-items rules)
@@ -956,6 +1021,12 @@ func (x *Exec) closureAsLoop(fr *Frame, st *State, c *Closure, ev *CallEvent) {
 	x.inlineStack = savedStack
 	// after the foreign call
 	x.havocCaptured(st, c)
+	if itemSort != "" {
+		oc := x.d.Fresh("ocnt", "Int")
+		st.assume(Ge(oc, IntLit(0)))
+		st.ghost["ocnt"] = oc
+		st.ghost["oseq:"+itemSort] = x.d.Fresh("oseq", ArraySort("Int", itemSort))
+	}
 	if len(invs) > 0 {
 		// heap is havocked by the caller right after; assume invariants on the cells now
 		env := mkEnv(st)
@@ -1104,8 +1175,29 @@ func (x *Exec) yieldCall(fr *Frame, st *State, cc *ssa.CallCommon, fn Val, args 
 	}
 	ret := x.freshVal(st, "yield_ret", types.Typ[types.Bool])
 	stop := Not(ret.T)
+	isItem := True
 	if len(args) >= 2 && args[len(args)-1].T.Sort == "Iface" {
 		stop = Or(stop, Not(Eq(args[len(args)-1].T, NilIface)))
+		isItem = Eq(args[len(args)-1].T, NilIface)
+		// the error delivered (if any)
+		prev, ok := st.ghost["yerr"]
+		if !ok {
+			prev = NilIface
+		}
+		ne := x.d.Fresh("yerr", "Iface")
+		st.assume(Eq(ne, Ite(isItem, prev, args[len(args)-1].T)))
+		st.ghost["yerr"] = ne
+	}
+	if len(args) >= 1 {
+		// ghost: the sequence of items handed to the consumer so far
+		it := x.termOf(st, &args[0])
+		cnt, seq := x.yieldGhost(st, it.Sort)
+		nc := x.d.Fresh("ycnt", "Int")
+		ns := x.d.Fresh("yseq", seq.Sort)
+		st.assume(Eq(nc, Ite(isItem, Add(cnt, IntLit(1)), cnt)))
+		st.assume(Eq(ns, Ite(isItem, Store(seq, cnt, it), seq)))
+		st.ghost["ycnt"] = nc
+		st.ghost["yseq:"+it.Sort] = ns
 	}
 	ns := x.d.Fresh("stopped", "Bool")
 	st.assume(Eq(ns, Or(st.stopped, stop)))
@@ -1114,6 +1206,37 @@ func (x *Exec) yieldCall(fr *Frame, st *State, cc *ssa.CallCommon, fn Val, args 
 	// the consumer may do anything to the heap, but not to the producer's cells
 	x.havocHeapOnly(st)
 	k(st, ret)
+}
+
+// yieldGhost: the ghost count and sequence (by item sort) of yielded items.
+func (x *Exec) yieldGhost(st *State, sort string) (Term, Term) {
+	cnt, ok := st.ghost["ycnt"]
+	if !ok {
+		cnt = IntLit(0)
+		st.ghost["ycnt"] = cnt
+	}
+	seq, ok := st.ghost["yseq:"+sort]
+	if !ok {
+		seq = x.d.Fresh("yseq0", ArraySort("Int", sort))
+		st.ghost["yseq:"+sort] = seq
+	}
+	return cnt, seq
+}
+
+// offerGhost: the same for the items a foreign iterator has offered to a
+// callback of the verified function (consumer side).
+func (x *Exec) offerGhost(st *State, sort string) (Term, Term) {
+	cnt, ok := st.ghost["ocnt"]
+	if !ok {
+		cnt = IntLit(0)
+		st.ghost["ocnt"] = cnt
+	}
+	seq, ok := st.ghost["oseq:"+sort]
+	if !ok {
+		seq = x.d.Fresh("oseq0", ArraySort("Int", sort))
+		st.ghost["oseq:"+sort] = seq
+	}
+	return cnt, seq
 }
 
 func (x *Exec) havocHeapOnly(st *State) {
